@@ -1,7 +1,7 @@
 (* Run/RunC12.v — entry points of the C12 models for the correspondence driver.
    kinds: 1201 parse (tokens, strategy or error); 1202 one glob on an exhaustive path set;
           1203 a glob set on an exhaustive path set *)
-From RG Require Import Base.Bytes Base.Val Model.Glob Model.GlobSet Spec.GlobSem.
+From RG Require Import Base.Bytes Base.Val Model.Glob Model.GlobSet Spec.GlobSem Spec.GlobSetSem.
 
 Definition decode_opts (n : N) : gopts :=
   mk_gopts (N.testbit n 0) (N.testbit n 1) (N.testbit n 2) (N.testbit n 3).
@@ -91,8 +91,6 @@ Definition run_glob (v : val) : val :=
         enc_bits (map (fun p => strategy_match st (candidate_new p) (tmatch o ts)) paths)]
   | _ => VL [VN 1%N]
   end.
-
-Definition re_spec (g : glob) : bytes -> bool := tmatch (g_opts g) (g_tokens g).
 
 Fixpoint decode_globs (l : list val) : option (list glob) :=
   match l with
